@@ -113,6 +113,23 @@ PROBES = {
 }
 
 
+def _ends_in_traceback(log):
+    """True when the probe itself died of an exception (its output ENDS with a traceback); tracebacks
+    printed earlier -- by worker processes of the code under test, or caught and reported by the probe --
+    are part of what it observed"""
+    lines = [l for l in log.rstrip().splitlines()]
+    idx = max((i for i, l in enumerate(lines) if l.startswith("Traceback (most recent call last)")), default=None)
+    if idx is None:
+        return False
+    rest = lines[idx + 1:]
+    k = 0
+    while k < len(rest) and (rest[k].startswith(" ") or not rest[k].strip()):
+        k += 1                       # the frames
+    # rest[k] is the exception line; anything substantial after it means the probe went on
+    after = [l for l in rest[k + 1:] if l.strip()]
+    return len(after) == 0
+
+
 def run(V, pid, tier):
     """run the probes of property pid; returns a list of outcomes for the evidence file"""
     out = []
@@ -138,7 +155,7 @@ def run(V, pid, tier):
         tail = "\n".join(log.strip().splitlines()[-25:])
         case = dict(type="workflow-probe", script=f"harness/workflows/{name}.py", workflow=what,
                     how_to_run=f"cd <tree> && PYTHONPATH=<tree> /venv/bin/python /verif/harness/workflows/{name}.py")
-        if rc == 1 and "Traceback (most recent call last)" not in log:
+        if rc == 1 and not _ends_in_traceback(log):
             V.disagreement(f"{pid} predicate on the implementation, workflow probe {name}: {what}",
                            case, "the statement holds on this workflow (exit 0)", tail, True)
         else:
